@@ -5,6 +5,7 @@
 //	op := (1 p k) Pump | (2 p d) Stale | (3 p o) RawRec | (4 p o) MainRec | (5 code wmerr ((p low)...)) KErr
 //	    | (6) Refresh | (7 (p...)) SetOwned | (8) Revoke | (9 p f t) Request | (10 cerr ((p committed high)...)) MAssign
 //	    | (11 msg) Deliver, msg := (1 p ((f t)...)) | (2 p) | (3) | (4)  | (12) Crash
+//	    | (13 p d) Ahead: a straggler n+1+|d| ahead of the client's position n, only inside the window and off the broadcast grid
 //
 // obs := (0 (perop ...)), perop := (emits calls sent err acks waits active owned tracker cli)
 //
@@ -222,6 +223,16 @@ func Run(in sx.Tree) sx.Tree {
 			w.in.rc.ProcessEventV(recMsg(p, o))
 		case 3:
 			w.in.rc.ProcessEventV(recMsg(op.At(1).Int(), op.At(2).Int()))
+		case 13:
+			p, d := op.At(1).Int(), op.At(2).Int()
+			if n, ok := w.in.cl.pos[int32(p)]; ok {
+				if ft, ok := w.in.rc.ActiveV()[int32(p)]; ok {
+					o := n + 1 + abs(d)
+					if o <= ft[1] && o%w.every != 0 {
+						w.in.rc.ProcessEventV(recMsg(p, o))
+					}
+				}
+			}
 		case 4:
 			w.in.k.ProcessEventV(recMsg(op.At(1).Int(), op.At(2).Int()))
 		case 5:
